@@ -286,7 +286,7 @@ func (c *ctxT) schedules(replay bool) {
 			results: []string{okFail(res0), "ok"}, wire: t.out.Bytes()})
 	}()
 	// 6. free-running: closers and senders released together
-	n := r.Pick(20, 300)
+	n := r.Pick(60, 300)
 	if replay {
 		n = 200
 	}
